@@ -26,8 +26,8 @@ LEVEL_TEXT = ("Theorems (Lean 4) about the executable model of `_diag` (the clus
               "attribute by attribute, label string by label string with the model; the caller's config is deep-compared "
               "before/after.  Partial: a name with an odd run of backslashes directly before a double quote or at its end "
               "cannot be written in DOT (finding F23f: `nodes_exact_rendered_partial` excludes exactly those names, "
-              "`c19_nodes_full_fails` keeps the witness); group names containing ':' or a double quote still break the "
-              "un-quoted cluster name (F23g, oracle only).")
+              "`c19_nodes_full_fails` keeps the witness; the same holds for a group name, whose cluster identifier is quoted "
+              "the same way since c7c5e36: `cluster_rendered_partial`).")
 LEVEL_NOTE = ("pydot's handling of *attribute values* and of cluster names and Graphviz' anonymisation of identifiers starting "
               "with '%' are outside the model (such nodes are identified through their explicit label); "
               "`config_unchanged` is true by construction in the pure model - the no-mutation claim rests on the before/after "
@@ -40,15 +40,15 @@ THEOREMS = ["SysLoss.C19." + t for t in (
     "legend_fresh", "heat_order", "mix_order", "heat_max_warm", "heat_zero_cold", "heat_colour_order", "colour_warm",
     "colour_cold", "heat_colour_defined", "clamp_id", "legend_label", "no_legend", "nice_float_3sig", "decade_bounds",
     "nice_float_si_range", "heat_loss_weighted", "heat_label_loss", "renderedId_of_no_backslash",
-    "nodes_exact_rendered_partial", "edges_rendered_partial", "c19_nodes_full_fails")]
+    "nodes_exact_rendered_partial", "edges_rendered_partial", "cluster_rendered_partial", "c19_nodes_full_fails")]
 RULE = ("random power trees from gen.gen_system (<=24 nodes, groups, rails, PMux, load phases) with component / group / "
         "system names drawn from an alphabet with spaces, digits, punctuation, : \" < > { } | \\ and unicode (plus DOT keywords, "
         "`Scale`, leading %, class names, `default`), rendered by make_diag and "
         "make_hdiag to Graphviz JSON with a random configuration (overrides at default / class / name level incl. unknown "
         "keys, rankdir, occasionally a missing section or a clashing 'label'), grouping on/off; one case = one diagram; "
         "non-trivial = rendered, >= 3 components; distinct by (description, config, group, mode); a separate stream uses "
-        "names DOT cannot express (odd backslash run), group names with : or \", and names that look already quoted; the "
-        "witnesses of the repaired findings F23-F23e, F30 are replayed as regression cases (corpus/C19)")
+        "component / group names DOT cannot express (odd backslash run) and names that look already quoted; the "
+        "witnesses of the repaired findings F23-F23e, F23g, F30 are replayed as regression cases (corpus/C19)")
 ASSUMPTIONS = ["IEEE rounding is outside the model: colours and label digits are compared as strings and, within 1e-6 of a "
                "rounding tie of the exact rational value, numerically (both must be correct roundings)",
                "Graphviz `dot -Tjson` reports the graph it parsed faithfully (it is the observation instrument)"]
@@ -72,7 +72,6 @@ SI = {"p": -12, "n": -9, "u": -6, "m": -3, "": 0, "k": 3, "M": 6}
 
 ALPHA = list("abcdefghijklmnopqrstuvwxyzABCDEFGHIJKLMNOPQRSTUVWXYZ0123456789") + \
     list("  __--..++##$$&&''()[]=,;/*!?@~^%") + list("::\"<>{}|\\") + list("éüßøΩµλж中日√±°")
-GALPHA = [c for c in ALPHA if c not in ':"<>\\']          # group names: see finding F23g
 SPECIAL_NAMES = ["default", "cluster_G", "sysLoss", "node", "edge", "graph", "Node", "GRAPH", "subgraph", "strict",
                  "Scale", "Scale_", "%RH", "%", "%3", "A:x", "A:y", "Boost:5V", "A:", "rail::", ":A", 'a"b', '5" pipe', '"',
                  "a\nb", "{x}", "a|b", "<", ">", "a<b>", "x\\\\", "p\\q", "\\N", "12", "1.5", "-3"]
@@ -138,13 +137,19 @@ def rename(rng, desc, special=0.12):
                 continue
         mp[c["name"]] = rname(rng, used)
     gused = set()
-    gmap = {g: (rname(rng, gused, 1, 7, GALPHA) if rng.random() < 0.85 else rng.choice(["default", "node", "%g", "{a|b}"]))
-            for g in ("G1", "G2", "G3", "G4")}
+    gmap = {}
+    for g in ("G1", "G2", "G3", "G4"):           # group names: the same alphabet, plus a few particular ones
+        cand = rname(rng, gused, 1, 7) if rng.random() < 0.8 else \
+            rng.choice(["default", "node", "graph", "%g", "{a|b}", "a:b", "a:c", 'g"1', "rail: 5V", "cluster_x", "x\\\\"])
+        gmap[g] = cand if cand not in gmap.values() else rname(rng, gused, 1, 7)
     for c in desc["comps"]:
         c["name"] = mp[c["name"]]
         c["parents"] = [mp.get(p, p) for p in c["parents"]]
         if c.get("group"):
             c["group"] = gmap[c["group"]]
+    det = desc.get("_build", {}).get("detour")
+    if det:                                       # the generator's "added late" leaf and its decoy host
+        det["x"], det["decoy_parent"] = mp.get(det["x"], det["x"]), mp.get(det["decoy_parent"], det["decoy_parent"])
     while True:
         desc["name"] = rname(rng, set(), 1, 12)
         if not desc["name"].endswith("\\"):
@@ -216,7 +221,7 @@ def gen_case(rng, malformed=None):
 
 
 # names that still do not come out as themselves (the separate, "malformed" stream)
-BAD_CLASSES = ("backslash", "group", "prequoted")
+BAD_CLASSES = ("backslash", "group_backslash", "prequoted")
 
 
 def bad_names(rng, desc, cls):
@@ -228,8 +233,8 @@ def bad_names(rng, desc, cls):
         new[old[k]] = rng.choice(["a\\", 'b\\"c', "x\\\\\\", "\\"])
     elif cls == "prequoted":          # the node is right; only the plain label loses its quotes / brackets
         new[old[k]] = rng.choice(['"ab"', "<ab>", '"x y"', "<b>"])
-    elif cls == "group":              # cluster names are not quoted (finding F23g)
-        g = rng.choice(["a:b", 'g"1', "rail: 5V", '"q"'])
+    elif cls == "group_backslash":    # the same for a group name (cluster identifier)
+        g = rng.choice(["a\\", 'b\\"c', "\\"])
         for c in rng.sample(comps, min(len(comps), rng.randint(1, 3))):
             c["group"] = g
     taken = set(old)
@@ -240,6 +245,9 @@ def bad_names(rng, desc, cls):
     for c in comps:
         c["name"] = new.get(c["name"], c["name"])
         c["parents"] = [new.get(p, p) for p in c["parents"]]
+    det = desc.get("_build", {}).get("detour")
+    if det:
+        det["x"], det["decoy_parent"] = new.get(det["x"], det["x"]), new.get(det["decoy_parent"], det["decoy_parent"])
     return desc
 
 
@@ -252,14 +260,10 @@ def name_class(n):
     return None
 
 
-def group_bad(g):
-    return ":" in g or '"' in g or not dot_ok(g)
-
-
 def case_class(desc):
     cl = set(filter(None, (name_class(c["name"]) for c in desc["comps"])))
-    if any(group_bad(c.get("group", "")) for c in desc["comps"]):
-        cl.add("group")
+    if any(not dot_ok(c.get("group", "")) for c in desc["comps"]):
+        cl.add("backslash")
     cl = sorted(cl)
     return cl[0] if cl else None
 
@@ -381,6 +385,15 @@ def edges_of(desc):
     return [[owner.get(p, p), c["name"]] for c in desc["comps"] for p in c["parents"]]
 
 
+def nodes_order(desc):
+    """`attrs["nodes"]` insertion order: list order, a leaf the build plan adds late comes last (sysdesc.build)"""
+    det = desc.get("_build", {}).get("detour")
+    comps = desc["comps"]
+    if det:
+        comps = [c for c in comps if c["name"] != det["x"]] + [c for c in comps if c["name"] == det["x"]]
+    return comps
+
+
 def ask_model(drv, case, mode, loss):
     desc = case["desc"]
     heat = None
@@ -389,7 +402,7 @@ def ask_model(drv, case, mode, loss):
         heat = {"rows": rows, "phases": [[k, wire.num(v)] for k, v in loss["phases"]],
                 "loss": [[wire.num(dict(r)[n]) for n in rows] for _, r in loss["byphase"]]}
     return drv.ask({"cmd": "diag", "carrier": "rat", "name": desc.get("name", "sys"), "group": case["group"],
-                    "comps": [{"name": c["name"], "kind": c["kind"], "group": c.get("group", "")} for c in desc["comps"]],
+                    "comps": [{"name": c["name"], "kind": c["kind"], "group": c.get("group", "")} for c in nodes_order(desc)],
                     "edges": edges_of(desc), "config": cfg_wire(case["config"]), "heat": heat})
 
 
@@ -789,10 +802,10 @@ def run_batch(ctx, cases, malformed=False, workers=None):
                 # the exception-free part of the model is compared: it must say which names are inexpressible
                 if "bad-op" in model:
                     ctx.corr(cid, "diagram(%s): driver rejects the description" % mode, model)
-                elif model.get("ok") and case.get("malformed") == "backslash":
+                elif model.get("ok") and case.get("malformed") in ("backslash", "group_backslash"):
                     rids = [n["rid"] for c in model["graph"]["clusters"] for n in c["nodes"]] + \
                            [n["rid"] for n in model["graph"]["nodes"]]
-                    if (None in rids) != any(not dot_ok(c["name"]) for c in desc["comps"]):
+                    if (None in rids) != any(not dot_ok(c["name"]) for c in desc["comps"]):   # group names: Python twin only
                         ctx.corr(cid, "diagram(%s): which names DOT can express (renderedId)" % mode,
                                  {"model_rids": rids, "names": [c["name"] for c in desc["comps"]]})
                 oracle(ctx, case, mode, rec, out["loss"], cid, first_only=True)
